@@ -27,6 +27,7 @@ type c01Prog struct {
 	Src     string   // declarations with § placeholders
 	Globals []string // package-level variables (with §) that are reset before and printed after every call
 	Generic bool     // uses type parameters (extra builder mode InstantiateGenerics is added)
+	Go121   bool     // placed in a file whose language version is go1.21 (per-loop loop variables)
 }
 
 func (p c01Prog) Text(suffix string) string { return strings.ReplaceAll(p.Src, "§", suffix) }
@@ -253,45 +254,40 @@ func c01Fillings(h, n int, visit func(fill [][]int)) {
 	comp(0, n)
 }
 
-// c01LSpace describes one tier's L space: for each depth the maximal number of hole
-// statements, and whether the statement list has a leading hole.
+// c01LSpace describes one tier's L space: the stages (depth of the skeleton, exact number of
+// hole statements) in enumeration order, and whether the statement list has a leading hole.
 type c01LSpace struct {
 	Name    string
-	MaxN    [3]int // MaxN[d] for depth d (1, 2); -1 = depth not enumerated
+	Stages  [][2]int
 	Leading bool
 }
 
-// c01EnumerateL visits the programs of family L in order: depth, then total number of
-// hole statements, then shape, then filling. visit returns false to stop.
+// c01EnumerateL visits the programs of family L in order: stage, then shape, then filling.
+// visit returns false to stop.
 func c01EnumerateL(sp c01LSpace, visit func(p c01Prog) bool) {
 	idx := 0
-	for depth := 1; depth <= 2; depth++ {
-		if sp.MaxN[depth] < 0 {
-			continue
-		}
-		shapes := c01Shapes(depth)
-		for n := 0; n <= sp.MaxN[depth]; n++ {
-			for _, sh := range shapes {
-				h := sh.countHoles() + 1 // + trailing hole
-				if sp.Leading {
-					h++
-				}
-				stop := false
-				c01Fillings(h, n, func(fill [][]int) {
-					if stop {
-						return
-					}
-					p := c01RenderL(sh, fill, sp.Leading)
-					p.Family = sp.Name
-					p.Index = idx
-					idx++
-					if !visit(p) {
-						stop = true
-					}
-				})
+	for _, st := range sp.Stages {
+		depth, n := st[0], st[1]
+		for _, sh := range c01Shapes(depth) {
+			h := sh.countHoles() + 1 // + trailing hole
+			if sp.Leading {
+				h++
+			}
+			stop := false
+			c01Fillings(h, n, func(fill [][]int) {
 				if stop {
 					return
 				}
+				p := c01RenderL(sh, fill, sp.Leading)
+				p.Family = sp.Name
+				p.Index = idx
+				idx++
+				if !visit(p) {
+					stop = true
+				}
+			})
+			if stop {
+				return
 			}
 		}
 	}
